@@ -62,6 +62,19 @@ Proof.
   apply fclean_nonpos. exact Hx.
 Qed.
 
+Lemma fclean_of_nonneg v : 0 <= v -> fclean O v = v.
+Proof.
+  intro H. unfold fclean. destruct (fltb O v 0) eqn:E; [|reflexivity].
+  apply (fltb_true O T) in E. destruct E as [E1 E2]. elim E2. apply (fle_antisym O T); assumption.
+Qed.
+
+Lemma get_clamp_vclean_id x0 s : s < length x0 -> 0 <= nth s x0 0 -> get_clamp 0 (vclean O x0) s = nth s x0 0.
+Proof.
+  intros Hs Hx. unfold vclean. rewrite get_clamp_lt by (rewrite map_length; exact Hs).
+  rewrite (nth_indep _ 0 (fclean O 0)) by (rewrite map_length; exact Hs). rewrite map_nth.
+  apply fclean_of_nonneg. exact Hx.
+Qed.
+
 Variables (m : model) (b : backend) (p : env O) (t : F) (x0 : list F).
 Hypothesis Hb : prepare_structural m = Ok b.
 Let x := vclean O x0.
@@ -125,6 +138,69 @@ Proof.
   apply fsum_map_nonneg. intros jf Hin. destruct (Hrate jf Hin) as [Er Hf].
   destruct (f_dst (snd jf)); [|apply (fle_refl O T)].
   destruct (Nat.eqb _ s); [|apply (fle_refl O T)]. rewrite Er. apply flow_rate_nonneg. exact Hf.
+Qed.
+
+(* ----- discrete invariance: one Euler step keeps a non-negative compartment non-negative as long as
+   step x (total rate coefficient with which the compartment is emptied) <= 1 ----- *)
+Definition exit_coeff (s : nat) : F :=
+  fsum O (map (fun jf => match f_src (snd jf) with
+                         | Some c => if Nat.eqb (comp_index (m_comps m) c) s
+                                     then match f_kind (snd jf) with
+                                          | KInfFreq | KInfDens =>
+                                              fmul O (weight_spec O p t x (snd jf)) (nth (infection_rank (m_flows m) (fst jf)) muls 0)
+                                          | _ => weight_spec O p t x (snd jf)
+                                          end
+                                     else 0
+                         | None => 0 end) (enumerate (m_flows m))).
+
+Lemma fle_0_sub a c : a <= c -> 0 <= fsub O c a.
+Proof.
+  intro H. pose proof (fle_add O T a c (fopp O a) H) as H1.
+  replace (fadd O a (fopp O a)) with 0 in H1 by ring. replace (fadd O c (fopp O a)) with (fsub O c a) in H1 by ring. exact H1.
+Qed.
+
+Theorem euler_keeps_nonneg s h :
+  s < length (m_comps m) -> length x0 = length (m_comps m) -> 0 <= nth s x0 0 ->
+  (forall f c, In f (m_flows m) -> f_src f = Some c -> comp_index (m_comps m) c = s -> fkind_eqb (f_kind f) KAbs = false) ->
+  0 <= h -> fmul O h (exit_coeff s) <= f1 O ->
+  0 <= fadd O (nth s x0 0) (fmul O h (nth s (get_comp_rates O m b p t x0) 0)).
+Proof.
+  intros Hs Hlen Hx Hnoabs Hh Hcfl.
+  assert (Ecr : nth s (get_comp_rates O m b p t x0) 0 = comp_rate_spec O m (get_flow_rates O m b p t x0) s).
+  { unfold get_comp_rates.
+    rewrite (comp_rates_spec O T m b _ Hb (get_flow_rates_length O m b p t x0 Hb)).
+    rewrite (nth_indep _ 0 (comp_rate_spec O m (get_flow_rates O m b p t x0) 0)) by (rewrite map_length, seq_length; exact Hs).
+    rewrite map_nth, seq_nth by exact Hs. reflexivity. }
+  rewrite Ecr. unfold comp_rate_spec.
+  assert (Hrate : forall jf, In jf (enumerate (m_flows m)) ->
+            nth (fst jf) (get_flow_rates O m b p t x0) 0 = flow_rate_spec O m p t x muls (fst jf) (snd jf) /\ In (snd jf) (m_flows m)).
+  { intros jf Hin. unfold enumerate in Hin. apply in_enumerate_from in Hin. destruct Hin as [Hr Hn].
+    rewrite Nat.sub_0_r in Hn. split; [|apply nth_error_In in Hn; exact Hn].
+    rewrite (flow_rate_nth O T m b p t x0 Hb (fst jf)) by lia.
+    rewrite (nth_error_nth _ _ dflow Hn). reflexivity. }
+  assert (Exs : get_clamp 0 x s = nth s x0 0) by (apply get_clamp_vclean_id; [rewrite Hlen; exact Hs | exact Hx]).
+  (* the outflow is x_s times the exit coefficient *)
+  assert (Hout : fsum O (map (fun jf => match f_src (snd jf) with
+                            | Some c => if Nat.eqb (comp_index (m_comps m) c) s then nth (fst jf) (get_flow_rates O m b p t x0) 0 else 0
+                            | None => 0 end) (enumerate (m_flows m))) = fmul O (nth s x0 0) (exit_coeff s)).
+  { unfold exit_coeff. rewrite <- (fsum_map_scale O T (nth s x0 0)). apply (fsum_map_ext O). intros jf Hin.
+    destruct (Hrate jf Hin) as [Er Hf].
+    destruct (f_src (snd jf)) as [c|] eqn:Esrc; [|ring].
+    destruct (Nat.eqb_spec (comp_index (m_comps m) c) s) as [Eidx|]; [|ring].
+    rewrite Er. unfold flow_rate_spec, src_index. rewrite Esrc, Eidx, Exs.
+    pose proof (Hnoabs (snd jf) c Hf Esrc Eidx) as Hk.
+    destruct (shapes (snd jf) Hf) as [Hsh _].
+    destruct (f_kind (snd jf)) eqn:Ek; cbn [flow_law fkind_eqb is_entry] in *; try ring;
+      try (rewrite (Hsh eq_refl) in Esrc; discriminate); discriminate. }
+  rewrite Hout.
+  set (IN := fsum O (map _ (enumerate (m_flows m)))).
+  assert (Hin : 0 <= IN).
+  { unfold IN. apply fsum_map_nonneg. intros jf Hin. destruct (Hrate jf Hin) as [Er Hf].
+    destruct (f_dst (snd jf)); [|apply (fle_refl O T)].
+    destruct (Nat.eqb _ s); [|apply (fle_refl O T)]. rewrite Er. apply flow_rate_nonneg. exact Hf. }
+  replace (fadd O (nth s x0 0) (fmul O h (fsub O IN (fmul O (nth s x0 0) (exit_coeff s)))))
+    with (fadd O (fmul O (nth s x0 0) (fsub O (f1 O) (fmul O h (exit_coeff s)))) (fmul O h IN)) by ring.
+  apply fle_0_add; apply (fle_mul O T); try assumption. apply fle_0_sub. exact Hcfl.
 Qed.
 
 End Positivity.
